@@ -22,7 +22,7 @@ var placeholders = []string{
 }
 
 var commentTexts = []string{
-	"# comment", "#", "#x", "# a { b }", "# \"quoted\" text", "# trailing \\", "#{", "# }", "# <<EOF", "# a\tb   c", "## é",
+	"# comment", "#", "#x", "# a { b }", "# \"quoted\" text", "#{", "# }", "# <<EOF", "# a\tb   c", "## é",
 }
 
 var dqTexts = []string{
@@ -32,7 +32,7 @@ var dqTexts = []string{
 
 var bqTexts = []string{"`a`", "`abc.def`", "``", "`x=y`", "`é`"}
 
-var heredocBodies = []string{"hello", "a b  c", "{\n}", "  indented", "# not comment", "line1\nline2", "", "\"q\"", "a { b }", "x\n\ny", "`bt`", "\\esc"}
+var heredocBodies = []string{"hello", "a b  c", "{\n}", "  indented", "# not comment", "line1\nline2", "", "\"q\"", "a { b }", "x\n\ny", "\\esc"}
 
 var markers = []string{"EOF", "END", "X", "a-b_1", "HTML"}
 
@@ -57,7 +57,7 @@ var riskyNames = func() []string {
 	for k := range riskyTokens {
 		ks = append(ks, k)
 	}
-	ks = append(ks, "backtick-in-comment", "special-right-after-line-continuation", "token-after-open-brace-on-same-line", "close-brace-not-first-on-line",
+	ks = append(ks, "backtick-in-comment", "backtick-in-heredoc", "blank-line-after-line-continuation", "empty-heredoc", "open-brace-first-on-line", "line-continuation-without-token-before", "backslash-in-comment", "special-right-after-line-continuation", "token-after-open-brace-on-same-line", "close-brace-not-first-on-line",
 		"token-after-close-brace-on-same-line", "dangling-open-brace-at-eof", "unterminated-quote", "bom", "empty-input")
 	sort.Strings(ks)
 	return ks
@@ -129,12 +129,15 @@ func (g *docGen) heredoc() string {
 	m := g.rng.Pick(markers)
 	pad := g.rng.Pick([]string{"", "\t", "  ", "\t\t"})
 	body := g.rng.Pick(heredocBodies)
+	if g.risky == "backtick-in-heredoc" {
+		body = g.rng.Pick([]string{"`", "a ` b", "`bt`\n`"})
+	}
 	for strings.Contains(body, m) {
 		body = "z"
 	}
 	var sb strings.Builder
 	sb.WriteString("<<" + m + "\n")
-	if body != "" || g.rng.Chance(1, 2) {
+	if body != "" || g.risky != "empty-heredoc" {
 		for _, l := range strings.Split(body, "\n") {
 			if l == "" {
 				sb.WriteString("\n")
@@ -171,6 +174,9 @@ func (g *docGen) comment() string {
 	if g.risky == "backtick-in-comment" && g.rng.Chance(1, 2) {
 		return g.rng.Pick(riskyComments)
 	}
+	if g.risky == "backslash-in-comment" && g.rng.Chance(1, 2) {
+		return g.rng.Pick([]string{"# trailing \\", "# a \\ b", "#\\"})
+	}
 	return g.rng.Pick(commentTexts)
 }
 
@@ -183,20 +189,25 @@ func (g *docGen) line(budget *int) {
 		return
 	}
 	g.sb.WriteString(g.indent())
+	if g.risky == "line-continuation-without-token-before" && g.rng.Chance(1, 3) {
+		g.sb.WriteString("\\\n" + g.indent())
+	}
 	nt := 1 + g.rng.Intn(4)
 	endsMultiline := false
 	for i := 0; i < nt; i++ {
 		if i > 0 {
 			g.sb.WriteString(g.ws())
 			if (g.rng.Chance(1, 12) || g.risky == "special-right-after-line-continuation") && !g.crlf {
-				if g.risky == "special-right-after-line-continuation" {
+				if g.risky == "blank-line-after-line-continuation" && g.rng.Chance(1, 2) {
+					g.sb.WriteString("\\\n" + g.rng.Pick([]string{"", " ", "\t"}) + "\n")
+				} else if g.risky == "special-right-after-line-continuation" {
 					g.sb.WriteString("\\\n")
 				} else {
 					g.sb.WriteString("\\\n" + g.rng.Pick([]string{" ", "\t", "    ", "\t\t"})) // line continuation
 				}
 			}
 		}
-		if i == nt-1 && g.rng.Chance(1, 10) && !g.crlf {
+		if i == nt-1 && (g.rng.Chance(1, 10) || g.risky == "backtick-in-heredoc" || g.risky == "empty-heredoc") && !g.crlf {
 			g.sb.WriteString(g.heredoc())
 			endsMultiline = true
 		} else {
@@ -205,7 +216,12 @@ func (g *docGen) line(budget *int) {
 	}
 	open := !endsMultiline && g.depth < 13 && *budget > 0 && g.rng.Chance(1, 3)
 	if open {
-		g.sb.WriteString(g.ws())
+		if g.risky == "open-brace-first-on-line" && g.rng.Chance(1, 2) {
+			g.nl()
+			g.sb.WriteString(g.indent())
+		} else {
+			g.sb.WriteString(g.ws())
+		}
 		g.sb.WriteString("{")
 		if g.risky == "token-after-open-brace-on-same-line" && g.rng.Chance(1, 2) {
 			g.sb.WriteString(g.ws() + g.token())
@@ -273,7 +289,11 @@ func genDoc(rng *core.Rand, risky string, maxLines int) string {
 	case "bom":
 		s = rng.Pick([]string{"\ufeff", " \ufeff", "\n\ufeff", "\ufeff\ufeff", "\ufeff ", "\ufeff\""}) + s
 	case "empty-input":
-		s = ""
+		if rng.Chance(1, 20) {
+			s = ""
+		} else {
+			s = rng.Pick([]string{" ", "\n", "\t\n ", "\r\n", "\u00a0"}) // white space only: accepted, no tokens
+		}
 	}
 	return s
 }
@@ -394,7 +414,7 @@ func big(rng *core.Rand) string {
 	return strings.Repeat("a {\nb {\n", 12) + strings.Repeat(rng.Pick(plainWords)+" ", 2000+rng.Intn(4000)) // > 4096 bytes: watchdog path
 }
 
-func (prop) Generate(rng *core.Rand, tier string, emit func(string)) {
+func (*prop) Generate(rng *core.Rand, tier string, emit func(string)) {
 	n := 24000
 	switch tier {
 	case "thorough":
@@ -412,6 +432,12 @@ func (prop) Generate(rng *core.Rand, tier string, emit func(string)) {
 	for i := 0; i < 12; i++ {
 		emitS(big(soupR))
 	}
+	// small-scope exhaustive stream: every string over the 10 structural symbols up to length 4 (5)
+	maxLen := 4
+	if tier == "thorough" {
+		maxLen = 5
+	}
+	enumerate(maxLen, emitS)
 	for c := 0; c < n; c++ {
 		switch x := c % 20; {
 		case x < 10:
@@ -424,4 +450,30 @@ func (prop) Generate(rng *core.Rand, tier string, emit func(string)) {
 			emitS(soup(soupR))
 		}
 	}
+}
+
+var enumSyms = []string{"a", " ", "\n", "{", "}", "<", "\\", "`", "\"", "#"}
+
+// enumerate emits every string of 1..maxLen symbols of enumSyms that neither starts nor ends
+// with white space (Format trims its input first).
+func enumerate(maxLen int, emit func(string)) {
+	var rec func(prefix string, left int)
+	rec = func(prefix string, left int) {
+		if prefix != "" {
+			last := prefix[len(prefix)-1]
+			if last != ' ' && last != '\n' {
+				emit(prefix)
+			}
+		}
+		if left == 0 {
+			return
+		}
+		for _, s := range enumSyms {
+			if prefix == "" && (s == " " || s == "\n") {
+				continue
+			}
+			rec(prefix+s, left-1)
+		}
+	}
+	rec("", maxLen)
 }
